@@ -517,6 +517,33 @@ def check_template(res, t, proto):
     return case
 
 
+def check_template_reuse(res, t, protos):
+    """One formatter object applied to a sequence of contexts (some of which lack a field): every call
+    gives what a formatter made for that call alone gives - the template is parsed once, the fields
+    are looked up at call time, nothing of an earlier (also a failed) call remains."""
+    case = {"law": "template-reuse", "template": t, "ctxs": list(protos)}
+
+    def one(f, proto):
+        try:
+            return ("ok", f(R.fresh(proto)))
+        except Exception as e:
+            return ("exc", _ename(e))
+
+    try:
+        shared = format_context(t)
+    except Exception:
+        return case         # what construction does is check_template's business
+    got = [one(shared, proto) for proto in protos]
+    want = [one(format_context(t), proto) for proto in protos]
+    res.case(nontrivial=len(set(w[0] for w in want)) > 1, outcome=None)
+    if got != want:
+        i = [k for k in range(len(got)) if got[k] != want[k]][0]
+        res.violation(case, got, want,
+                      {"law": "format_context-reuse", "after_failed_call": any(w[0] == "exc" for w in want[:i]),
+                       "observed": "wrong-text" if got[i][0] == "ok" else "raised"})
+    return case
+
+
 # -- format_update_with ---------------------------------------------------------------------------------
 
 def _fuw_keys():
@@ -938,6 +965,12 @@ def run_shard(p, tier):
         for j in range(p["i"], len(ts), p["k"]):
             for proto in TEMPLATE_CTX:
                 case = check_template(res, ts[j], proto)
+            parts = M.parse_template(ts[j], True)
+            if parts and len(M.fields_of(parts)) >= 2:
+                # every ordered pair and the whole list of contexts through one formatter
+                for a, b in itertools.permutations(range(len(TEMPLATE_CTX)), 2):
+                    check_template_reuse(res, ts[j], [TEMPLATE_CTX[a], TEMPLATE_CTX[b]])
+                check_template_reuse(res, ts[j], list(TEMPLATE_CTX))
             if M.parse_template(ts[j], True) and len(ts[j]) > 8:
                 res.sample(case, 3)
     elif kind == "fuw":
@@ -1011,6 +1044,8 @@ def replay(case):
         check_roundtrip(res, case["path"], case["value"])
     elif law == "template":
         check_template(res, case["template"], R.fresh(case["ctx"]))
+    elif law == "template-reuse":
+        check_template_reuse(res, case["template"], [R.fresh(c) for c in case["ctxs"]])
     elif law == "format_update_with":
         check_fuw(res, case["key"], case["value"], R.fresh(case["ctx"]))
     elif law == "to_string-order":
